@@ -216,7 +216,21 @@ def run_case(case, ctx):
                 _judge(ctx, "sptensor.__rmul__", r, "scalar", c * A, exact=True)
                 r = ctx.call("sptensor.__rtruediv__", operator.truediv, c, SA)
                 _judge(ctx, "sptensor.__rtruediv__", r, "scalar", np.true_divide(c, A), exact=True)
+            ctx.feat(scalar="-0")
+            with np.errstate(all="ignore"):
+                # a negative zero divisor: x / -0.0 has the opposite sign of x / 0.0 (0 / -0.0 is NaN)
+                _binary(ctx, SA, "__truediv__", -0.0, "scalar", np.true_divide(A, -0.0), exact=True, AB=(A, np.full(shape, -0.0)))
             ctx.feat(scalar=None)
+            if not case.get("large") and na:
+                # dense right-hand side whose values at stored positions differ from the stored ones in the last bit only (or are the
+                # same infinity): comparisons are exact
+                Bn = np.where(a_nz.reshape(shape) & (rng.random(shape) < 0.5), np.nextafter(A, np.inf), A)
+                Bn = np.where(rng.random(shape) < 0.2, 0.0, Bn)
+                TBn = ttb.tensor(Bn.copy())
+                ctx.feat(near_equal=True)
+                for name, uf in COMP:
+                    _binary(ctx, SA, name, TBn, "tensor", uf(A, Bn), exact=False)
+                ctx.feat(near_equal=None)
             if not case.get("large"):
                 # the dense right-hand side held as a Kruskal tensor (mixed signs, zero factor entries; small integers so that the
                 # products are exact): S * K is S * K.full(), and a product that is zero is not stored
@@ -280,6 +294,13 @@ def _typed_block(case, ctx, rng, A, B, shape):
                 r = ctx.call("sptensor.__rmul__", operator.mul, c, SN)
                 _judge(ctx, "sptensor.__rmul__", r, "scalar", c * An, exact=True, AB=(An, np.full(shape, c)))
             ctx.feat(scalar=None)
+            if not np.isnan(An).any():
+                # the same infinity on the dense side: equal there, and ordered against finite neighbours
+                Bd = np.where(rng.random(shape) < 0.5, An, An + 1.0)
+                Bd = np.where(np.isinf(An), An, Bd)
+                for name, uf in COMP:
+                    r = ctx.call("sptensor." + name, getattr(SN, name), ttb.tensor(Bd.copy()))
+                    _judge(ctx, "sptensor." + name, r, "tensor", uf(An, Bd), exact=False)
             r = ctx.call("sptensor.__neg__", operator.neg, SN)
             _judge(ctx, "sptensor.__neg__", r, "-", -An, exact=True)
             r = ctx.call("sptensor.__truediv__", operator.truediv, SN, 2.0)
